@@ -8,7 +8,10 @@ Oracles on the real code alone:
   (a) `scaled_fixed`   scaled asset with min_scale = max_scale = s  vs  plain portfolio with the base asset whose
                        capacities are all multiplied by s/norm and whose window is its own window INTERSECTED with the scaled
                        asset's start/end (the scaled asset hands its window down to the base, as a structured asset does),
-                       minus s * fix_costs * sum(dt of the scaled asset's own window)
+                       minus s * fix_costs * sum(dt of the scaled asset's own window)  (case['duration'] == 'instants': the duration
+                       from the scenario alone, `window_duration`); with case['cost_samples'] also through
+                       Portfolio.create_cost_samples: the optimal point valued with the cost vector made for the same prices is worth
+                       the same reference, and the entry of the scale variable is fix_costs * duration
   (b) `scaled_free`    free scale: V(free) >= V(s_i) on a grid of [min, max] and V(free) = V(s*) at the reported scale;
                        (b') the same against the REFERENCE R(s) = plain portfolio with the base at all capacities * s/norm less
                        s * fix_costs * duration: V(free) >= R(s_i) for every scanned scale (end points included) and
@@ -672,6 +675,15 @@ def oracle_scaled(case, seed=0, grid_pts=None):
         facts['bool_vars'] = bool('bool' in bop.mapping.columns and bop.mapping['bool'].fillna(False).astype(bool).any())
     rg = scaled_dt(case, {'asset': sc_asset})
     dtsum = float(np.sum(rg.dt))
+    if case.get('duration') == 'instants':
+        # the active duration from the scenario alone: the steps of the horizon that begin inside the scaled asset's window, their
+        # lengths as differences of instants in the main time unit (no grid object of the package, no discounting involved)
+        d_inst = window_duration(scn['grid'], args)
+        stats['duration'] = d_inst
+        if abs(d_inst - dtsum) > 1e-9 * max(1.0, abs(d_inst)):
+            stats['duration_package'] = dtsum
+        dtsum = d_inst
+    facts['wrapper_wacc'] = bool(args.get('wacc'))
     res_free = _solve(op)
     if isinstance(res_free, str):
         stats['skipped'] = 'free:' + res_free
@@ -725,6 +737,34 @@ def oracle_scaled(case, seed=0, grid_pts=None):
                                    'with capacities times %s (%.8g) minus %s*%s*%s' % (s, nrm, v1, v2, k, float(r2.value), s, fc, dtsum),
                                    what='value', **facts))
             continue
+        # the same statement through the cost vectors for price samples (Portfolio.create_cost_samples, the costs_only set-up used
+        # for robust optimisation): the optimal point of the fixed-scale portfolio, valued with the cost vector made for these very
+        # prices, is worth the rescaled base portfolio less s * fix_costs * duration, and the entry of the scale variable is
+        # fix_costs * duration per unit of scale (also where the scale is held at 0 and the value cannot tell)
+        if case.get('cost_samples'):
+            try:
+                with Quiet():
+                    c_s = np.asarray(p1.create_cost_samples([pr1], tg1)[0], dtype=float)
+                stats['cost_samples'] = stats.get('cost_samples', 0) + 1
+                if len(c_s) != len(r1.x):
+                    viol.append(_violation('scaled_fixed', 'scale %s: cost vector for a price sample has %d entries, the problem %d variables' % (s, len(c_s), len(r1.x)),
+                                           what='cost-sample-length', **facts))
+                else:
+                    v1c = -float(c_s @ np.asarray(r1.x, dtype=float))
+                    if abs(v1c - v2) > 1e-5 * max(1.0, abs(v1c), abs(v2)):
+                        j = off + nblk - 1
+                        viol.append(_violation('scaled_fixed', 'scale %s (norm %s): the optimal point of the scaled portfolio valued with the cost vector for a price sample '
+                                               '(create_cost_samples) is worth %.8g vs %.8g = value of the portfolio with capacities times %s (%.8g) minus %s*%s*%s; '
+                                               'entry of the scale variable %.10g, fix_costs * duration = %.10g' % (
+                                                   s, nrm, v1c, v2, k, float(r2.value), s, fc, dtsum, float(c_s[j]), fc * dtsum),
+                                               what='cost-sample-value', **facts))
+                    else:
+                        j = off + nblk - 1
+                        if abs(float(c_s[j]) - fc * dtsum) > 1e-9 * max(1.0, abs(fc * dtsum)):
+                            viol.append(_violation('scaled_fixed', 'scale %s: cost vector for a price sample: entry of the scale variable %.10g vs fix_costs * duration = %s*%s = %.10g' % (
+                                s, float(c_s[j]), fc, dtsum, fc * dtsum), what='cost-sample-vector', **facts))
+            except Exception as e:
+                stats.setdefault('cost_sample_errors', []).append(err_class(e))
         # transported feasibility: base variables of the scaled solution are feasible for the rescaled base and vice versa
         if len(op2.c) == len(op1.c) - 1:
             x1 = np.delete(r1.x, off + nblk - 1)
@@ -836,6 +876,28 @@ def _date_spec(ts):
     if ts.tzinfo is None:
         return gen.dtv(ts)
     return {'$ts': gen.iso(ts.tz_convert('UTC').tz_localize(None)), 'tz': 'UTC'}
+
+
+def window_duration(g, wargs):
+    """active duration of a window (start / end of `wargs`, either may be missing) on the horizon of grid specification `g`, in the
+    grid's main time unit, from the SCENARIO alone: the grid points as instants (pandas date_range in the zone of the grid), a step
+    belongs to the window when it begins in [start, end) - naive dates are wall clock of the grid -, its length is the difference
+    of its two end points as points in time.  Plain lengths: nothing is discounted."""
+    tz = g.get('tz')
+    pts = pd.date_range(pd.Timestamp(g['start'], tz=tz), pd.Timestamp(g['end'], tz=tz), freq=g['freq'])
+    unit = pd.Timedelta(1, g.get('unit', 'h'))
+
+    def inst(v):
+        t = _date_of(v)
+        if t is not None and t.tzinfo is None and tz is not None:
+            t = t.tz_localize(tz)
+        return t
+    s, e = inst(wargs.get('start')), inst(wargs.get('end'))
+    tot = Fraction(0)
+    for a, b in zip(pts[:-1], pts[1:]):
+        if (s is None or a >= s) and (e is None or a < e):
+            tot += Fraction((b - a).value, unit.value)
+    return float(tot)
 
 
 def _intersect_window(a, wargs):
